@@ -149,6 +149,26 @@ pub struct C10LiteralNoTerminator;
 /// ```
 pub struct C10LiteralTwin;
 
+/// C10: the literal macro validates what it builds: an interior NUL in `unix_lit!` is a compile error.
+/// ```compile_fail,E0080
+/// let s = rusl::unix_lit!("/etc\0/passwd");
+/// let _ = s;
+/// ```
+pub struct C10UnixLitInteriorNul;
+
+/// C10: ... and so is a literal that brings its own terminator (the macro appends one: two NULs).
+/// ```compile_fail,E0080
+/// let s = rusl::unix_lit!("/tmp\0");
+/// let _ = s;
+/// ```
+pub struct C10UnixLitOwnTerminator;
+
+/// ```no_run
+/// let s = rusl::unix_lit!("/etc/passwd");
+/// let _ = s;
+/// ```
+pub struct C10UnixLitTwin;
+
 /// C12: an owned descriptor cannot be duplicated by value (no Clone / Copy), so at most one owner closes it.
 /// ```compile_fail,E0599
 /// let f = tiny_std::fs::File::open(tiny_std::UnixStr::from_str_checked("/dev/null\0")).unwrap();
